@@ -472,6 +472,12 @@ func (x *Engine) havocLoc(st, pre *State, m *Clause, env map[string]Val, pkg *ss
 			t, _ := deref(v.Typ)
 			x.havocObject(st, t, v.T)
 			return
+		case "cells":
+			// cells(Type): every scalar cell of that type (objects created by new(Type))
+			if tn, ok := pkg.Members[n.Args[1].Name].(*ssa.Type); ok {
+				x.havocKey(st, x.memKey(tn.Type()))
+				return
+			}
 		case "all":
 			// all(Type.field): whole field array
 			if n.Args[1].Op == "sel" && n.Args[1].Args[0].Op == "ident" {
@@ -591,6 +597,10 @@ func (x *Engine) modKeyStatic(fs *FuncSpec, m *Clause) (keys []string, ok bool) 
 				keys = append(keys, k)
 			}
 			return keys, true
+		case "cells":
+			if tn, ok := pkg.Members[n.Args[1].Name].(*ssa.Type); ok {
+				return []string{x.memKey(tn.Type())}, true
+			}
 		case "all":
 			if tn, ok := pkg.Members[n.Args[1].Args[0].Name].(*ssa.Type); ok {
 				_, f := findField(tn.Type(), n.Args[1].Name, 0)
